@@ -20,7 +20,7 @@ func init() { register("VhostLocks", genC12vVhostLocks) }
 //	                                  the unlock step at the END of the function's program. Lock operations are accepted at the top
 //	                                  level of a function body only.
 //	walkRoutes      a read of <recv>.routes in place: `range <recv>.routes` (the loop body follows, flattened), `<recv>.routes[i]`,
-//	                `len(<recv>.routes)`, a nil comparison
+//	                `len(<recv>.routes)`, a nil comparison, a copy of every cell (`append(<other>, <recv>.routes...)`, `copy(dst, …)`)
 //	aliasRoutes     a copy of the slice header: `x := <recv>.routes` (also `= <recv>.routes[a:b]`); x is tracked from there on
 //	walkAlias       a read through a tracked header copy: `range x`, `x[i]`, `len(x)`
 //	resetRoutes     INPLACE  `<recv>.routes = <recv>.routes[:0]` (same backing array, length 0)
@@ -172,6 +172,30 @@ func (w *c12vWalk) mentions(n ast.Node, claimed map[ast.Node]bool) []c12vEv {
 					case w.isIAlias(a):
 						claimed[c12vUnparen(a)] = true
 						add(x, "readAlias")
+					}
+				}
+				// a copy of every cell into another slice (`append(<other>, <recv>.routes...)`, `copy(dst, <recv>.routes)`) reads the
+				// table in place; the result is a fresh slice, not a copy of the header
+				if !closure && k == "append" && x.Ellipsis.IsValid() && len(x.Args) == 2 && !w.isRoutes(x.Args[0]) && !w.isRAlias(x.Args[0]) {
+					a := x.Args[1]
+					switch {
+					case w.isRoutes(a):
+						claimed[a] = true
+						add(x, "walkRoutes")
+					case w.isRAlias(a):
+						claimed[c12vUnparen(a)] = true
+						add(x, "walkAlias")
+					}
+				}
+				if !closure && k == "copy" && len(x.Args) == 2 && !w.isRoutes(x.Args[0]) && !w.isRAlias(x.Args[0]) {
+					a := x.Args[1]
+					switch {
+					case w.isRoutes(a):
+						claimed[a] = true
+						add(x, "walkRoutes")
+					case w.isRAlias(a):
+						claimed[c12vUnparen(a)] = true
+						add(x, "walkAlias")
 					}
 				}
 				if !closure && k == "delete" && len(x.Args) == 2 {
